@@ -337,6 +337,8 @@ def verify_hyperparameters(num_input_dims=None,
                          "the same pair of features conflicting. Features: %d, "
                          "%d" % (dominant_dim, weak_dim))
       dim_pairs.add((dominant_dim, weak_dim))
+    if monotonic_dominances:
+      internal_utils.verify_acyclic(monotonic_dominances)
 
   if range_dominances is not None:
     assert monotonicities is not None
@@ -378,6 +380,8 @@ def verify_hyperparameters(num_input_dims=None,
                          "same pair of features conflicting. Features: %d, %d" %
                          (dominant_dim, weak_dim))
       dim_pairs.add((dominant_dim, weak_dim))
+    if range_dominances:
+      internal_utils.verify_acyclic(range_dominances)
 
   if range_dominances is not None and monotonic_dominances is not None:
     monotonic_dominance_dims = set()
